@@ -24,8 +24,9 @@ ParseAdmissible(e) == Judge(e.text, e.cls, e.consumed, e.raw)           \* C09
 Skeleton(t) == SelectSeq(t, LAMBDA c : c # 48 /\ c # 46)          \* the text without zeros and point
 NoExp(t) == \A i \in 1..Len(t) : t[i] # 101
 DefectClass(e) ==
-    IF ~IsReal(e.kind) \/ e.prefix # 1 \/ e.wsame # 1 THEN "MISMATCH"
-    ELSE IF e.p = 0 THEN "P0"
+    IF ~IsReal(e.kind) THEN "MISMATCH"
+    ELSE IF e.p = 0 THEN "P0"                  \* (reads / writes beside the digit buffer: the text, and whether the widths agree, vary from run to run)
+    ELSE IF e.prefix # 1 \/ e.wsame # 1 THEN "MISMATCH"
     ELSE IF e.out \in {RealTextM(e.kind, e.bits, e.fmt, e.p, "up"), RealTextM(e.kind, e.bits, e.fmt, e.p, "down")} THEN "ROUND"
     ELSE IF NoExp(e.out) /\ NoExp(Expected(e)) /\ e.out # <<>> /\ Skeleton(e.out) = Skeleton(Expected(e)) THEN "ZEROS"
     ELSE "MISMATCH"
